@@ -220,7 +220,23 @@ class SymStr(NativeModel):
         if self._tokens is not None:
             return list(self._tokens)
         if self.fmt is None:
-            raise Unsupported("tokens of an unstructured symbolic string")
+            # a concatenation: text parts contribute their blank-separated words, a symbolic part one token; the only glueing modelled is a text part
+            # ending in ';' directly before a symbolic part (' ;' + category): ';' becomes a token of its own, which is what split(';') cuts at
+            out = []
+            for i, p_ in enumerate(self.parts):
+                if isinstance(p_, str):
+                    if p_ and not p_[-1].isspace() and not p_.endswith(";") and i + 1 < len(self.parts):
+                        raise Unsupported("tokens of a concatenation that glues text to a symbolic part")
+                    if p_ and not p_[0].isspace() and i > 0:
+                        raise Unsupported("tokens of a concatenation that glues a symbolic part to text")
+                    out.extend(_split_keep_semicolon(p_))
+                elif isinstance(p_, SV):
+                    out.append(p_)
+                elif isinstance(p_, SymStr):
+                    out.extend(p_.tokens())
+                else:
+                    raise Unsupported("tokens of an unstructured symbolic string")
+            return out
         import string
         out = []
         auto = 0
@@ -260,6 +276,29 @@ class SymStr(NativeModel):
 
     def strip(self, *a):
         return self
+
+    # a string with at least one token is not the empty string; everything else stays "equal only to itself"
+    def _nonempty(self):
+        try:
+            return len(self.tokens()) > 0
+        except Unsupported:
+            return False
+
+    def __eq__(self, other):
+        if other is self:
+            return True
+        if isinstance(other, str) and other == "" and self._nonempty():
+            return False
+        return NotImplemented
+
+    def __ne__(self, other):
+        if other is self:
+            return False
+        if isinstance(other, str) and other == "" and self._nonempty():
+            return True
+        return NotImplemented
+
+    __hash__ = object.__hash__
 
 
 def _split_keep_semicolon(text):
